@@ -489,12 +489,36 @@ def run_check(run, tier, seed, shard):
         for cfg in cfgs:
             for mode in ('direct', 'nested', 'twice', 'root'):
                 jobs.append((e, cfg, mode))
+    for e in catalog.ENTRIES:
+        cfgs = e.configs(tier)
+        if len(cfgs) < 2:
+            continue
+        rnd = rng(seed, 'c03-pair', e.name)
+        # configurations that differ in exactly one width/option are the likeliest module-name collisions
+        groups = {}
+        for c in cfgs:
+            if not isinstance(c, tuple):
+                continue
+            for k in range(len(c)):
+                groups.setdefault((k, c[:k] + c[k + 1:]), []).append(c)
+        near = [g for g in groups.values() if len(g) >= 2]
+        rnd.shuffle(near)
+        for g in near[:(24 if quick else 300)]:
+            c1, c2 = rnd.sample(g, 2)
+            jobs.append((e, (c1, c2), 'pair'))
+        for k in range(4 if quick else 40):
+            c1, c2 = rnd.sample(cfgs, 2)
+            jobs.append((e, (c1, c2), 'pair'))
     for e, cfg, mode in shard_slice(jobs, shard):
         if time.time() > deadline or run.too_many:
             break
         case = dict(workload='unit', block=e.name, cfg=cfg, mode=mode)
         try:
-            if mode == 'root':
+            if mode == 'pair':
+                des = c01.pair_design(e, cfg[0], cfg[1])
+                text = cosim.generate(des)
+                root = des.dut
+            elif mode == 'root':
                 hw = py4hw.HWSystem()
                 with muted():
                     e.build(hw, cfg, hw.wire)
